@@ -7,11 +7,19 @@ package main
 //	lean  Lean name (default: fn, or Recv_fn for methods); must be unique
 //	fuel  iteration bound for `for cond {…}` loops (the tie theorem shows it suffices)
 //	note  input range on which no `int` intermediate overflows 64 bits (printed in the header)
+//	site  expression site inside fn: the name of the assigned variable/field (occ-th assignment),
+//	      or "if:N" / "return:N" (N-th if condition / first returned expression, in source order)
+//	vars  the free variables of the site and their Go types ("x int, buf []byte")
+//	tables  for a package-initialisation function: the run-time filled package arrays it writes
 type fxSpec struct {
 	pkg, recv, fn string
 	lean          string
 	fuel          int
 	note          string
+	site          string
+	occ           int
+	vars          string
+	tables        string
 }
 
 var funcWhitelist = []fxSpec{
@@ -48,6 +56,37 @@ var funcWhitelist = []fxSpec{
 	{pkg: "internal/dsp", fn: "Clip8b"},
 	{pkg: "internal/dsp", fn: "multHi", note: "|v * coeff| < 2^63"},
 	{pkg: "internal/dsp", fn: "clip", lean: "dsp_clip"},
+	{pkg: "internal/dsp", fn: "initClipTables", tables: "sclip1,sclip2,clip1,abs0"},
+	{pkg: "internal/dsp", fn: "Ksclip1"},
+	{pkg: "internal/dsp", fn: "Ksclip2"},
+	{pkg: "internal/dsp", fn: "Kclip1"},
+	{pkg: "internal/dsp", fn: "Kabs0"},
+	{pkg: "internal/dsp", fn: "needsFilter"},
+	{pkg: "internal/dsp", fn: "needsFilter2"},
+	{pkg: "internal/dsp", fn: "hev"},
+	{pkg: "internal/dsp", fn: "doFilter2"},
+	{pkg: "internal/dsp", fn: "doFilter4"},
+	{pkg: "internal/dsp", fn: "doFilter6"},
+	{pkg: "internal/dsp", fn: "simpleVFilter16Go"},
+	{pkg: "internal/dsp", fn: "SimpleHFilter16"},
+	{pkg: "internal/dsp", fn: "filterLoop26"},
+	{pkg: "internal/dsp", fn: "filterLoop24"},
+	{pkg: "internal/dsp", fn: "VFilter16"},
+	{pkg: "internal/dsp", fn: "HFilter16"},
+	{pkg: "internal/dsp", fn: "HasAlpha8b"},
+	{pkg: "internal/dsp", fn: "HasAlpha32b"},
+	{pkg: "internal/dsp", fn: "iTransformOne"},
+	{pkg: "internal/dsp", fn: "iTransform"},
+	{pkg: "internal/dsp", fn: "fTransform"},
+	{pkg: "internal/dsp", fn: "fTransformWHT"},
+	{pkg: "internal/dsp", fn: "store"},
+	{pkg: "internal/dsp", fn: "transformOne", note: "12-bit coefficients"},
+	{pkg: "internal/dsp", fn: "transformDC"},
+	{pkg: "internal/dsp", fn: "transformAC3"},
+	{pkg: "internal/dsp", fn: "transformTwo"},
+	{pkg: "internal/dsp", fn: "transformUV"},
+	{pkg: "internal/dsp", fn: "transformDCUV"},
+	{pkg: "internal/dsp", fn: "transformWHT"},
 	// ---- internal/lossy (C04, C06) ----
 	{pkg: "internal/lossy", fn: "clip", lean: "lossy_clip"},
 	{pkg: "internal/lossy", fn: "clampInt"},
@@ -55,8 +94,51 @@ var funcWhitelist = []fxSpec{
 	{pkg: "internal/container", fn: "PaddedSize"},
 	{pkg: "internal/container", fn: "FourCC"},
 	{pkg: "internal/container", fn: "readLE24"},
+	{pkg: "internal/container", fn: "ReadLE16"},
+	{pkg: "internal/container", fn: "ReadLE32"},
+	{pkg: "internal/container", fn: "PutLE16"},
+	{pkg: "internal/container", fn: "PutLE32"},
+	{pkg: "mux", fn: "putLE24", lean: "mux_putLE24"},
+	{pkg: ".", fn: "putLE24", lean: "webp_putLE24"},
+	{pkg: "internal/lossless", fn: "argbHasAlpha"},
+	{pkg: "internal/lossless", fn: "clampBits", fuel: 64, note: "as VP8LSubSampleSize"},
+	// expression sites: LZ77 prefix value arithmetic, ANMF / ANIM fields, dimension and area guards
+	{pkg: "internal/lossless", fn: "getCopyDistance", site: "extraBits", vars: "distanceSymbol int"},
+	{pkg: "internal/lossless", fn: "getCopyDistance", site: "offset", vars: "distanceSymbol int, extraBits int"},
+	{pkg: "internal/lossless", fn: "getCopyDistance", site: "return:0", vars: "distanceSymbol int"},
+	{pkg: "internal/container", fn: "parseANMF", site: "XOffset", vars: "payload []byte"},
+	{pkg: "internal/container", fn: "parseANMF", site: "YOffset", vars: "payload []byte"},
+	{pkg: "internal/container", fn: "parseANMF", site: "Width", vars: "payload []byte"},
+	{pkg: "internal/container", fn: "parseANMF", site: "Height", vars: "payload []byte"},
+	{pkg: "internal/container", fn: "parseANMF", site: "Duration", vars: "payload []byte"},
+	{pkg: "internal/container", recv: "Parser", fn: "parseVP8X", site: "CanvasWidth", vars: "payload []byte"},
+	{pkg: "internal/container", recv: "Parser", fn: "parseVP8X", site: "CanvasHeight", vars: "payload []byte"},
+	{pkg: "mux", recv: "Demuxer", fn: "parseANMF", site: "offsetX", vars: "data []byte"},
+	{pkg: "mux", recv: "Demuxer", fn: "parseANMF", site: "offsetY", vars: "data []byte"},
+	{pkg: "mux", recv: "Demuxer", fn: "parseANMF", site: "width", vars: "data []byte"},
+	{pkg: "mux", recv: "Demuxer", fn: "parseANMF", site: "height", vars: "data []byte"},
+	{pkg: "mux", recv: "Demuxer", fn: "parseANMF", site: "duration", vars: "data []byte"},
+	{pkg: "mux", recv: "Demuxer", fn: "parseANMF", site: "if~MaxImageArea", lean: "Demuxer_parseANMF_areaGuard", vars: "width int, height int"},
+	{pkg: "mux", recv: "Muxer", fn: "validate", site: "if~MaxCanvasSize", lean: "Muxer_validate_canvasGuard", vars: "canvasW int, canvasH int"},
+	{pkg: "mux", recv: "Muxer", fn: "validate", site: "if~MaxImageArea", lean: "Muxer_validate_areaGuard", vars: "canvasW int, canvasH int"},
+	{pkg: ".", fn: "Encode", site: "if~MaxDimension", lean: "Encode_dimGuard", vars: "imgW int, imgH int"},
+	{pkg: ".", fn: "Encode", site: "if~imgW <= 0", lean: "Encode_posGuard", vars: "imgW int, imgH int"},
+	{pkg: "internal/lossless", fn: "Encode", site: "if~16383", lean: "lossless_Encode_dimGuard", vars: "width int, height int"},
+	{pkg: "internal/lossy", recv: "VP8Encoder", fn: "assembleFrame", site: "tag", occ: 3, lean: "assembleFrame_tag", vars: "tag uint32, part0 []byte"},
+	// expression sites of the VP8 frame header (C02 C04 C05)
+	{pkg: "internal/lossy", recv: "Decoder", fn: "parsePartitions", site: "psize", vars: "sz []byte"},
+	{pkg: "internal/lossy", recv: "Decoder", fn: "parseHeaders", site: "bits", vars: "data []byte"},
+	{pkg: "internal/lossy", recv: "Decoder", fn: "parseHeaders", site: "KeyFrame", vars: "bits uint32"},
+	{pkg: "internal/lossy", recv: "Decoder", fn: "parseHeaders", site: "Profile", vars: "bits uint32"},
+	{pkg: "internal/lossy", recv: "Decoder", fn: "parseHeaders", site: "Show", vars: "bits uint32"},
+	{pkg: "internal/lossy", recv: "Decoder", fn: "parseHeaders", site: "PartitionLength", vars: "bits uint32"},
+	{pkg: "internal/lossy", recv: "Decoder", fn: "parseHeaders", site: "Width", vars: "buf []byte"},
+	{pkg: "internal/lossy", recv: "Decoder", fn: "parseHeaders", site: "Height", vars: "buf []byte"},
+	{pkg: "internal/lossy", recv: "Decoder", fn: "parseHeaders", site: "XScale", vars: "buf []byte"},
+	{pkg: "internal/lossy", recv: "Decoder", fn: "parseHeaders", site: "YScale", vars: "buf []byte"},
 	{pkg: "mux", fn: "clampDuration"},
 	{pkg: "animation", fn: "clampLoopCount"},
+	{pkg: "animation", fn: "alphaBlendNRGBA", note: "all inputs (uint32 arithmetic)"},
 	// ---- root package: option sentinels (C20) ----
 	{pkg: ".", fn: "resolveSNSStrength"},
 	{pkg: ".", fn: "resolveFilterStrength"},
